@@ -718,7 +718,9 @@ def _handle_harmony(e, position, part):
         # TODO: handle kind text which is other kind of annotation also root
         kind = e.find("kind").get("text")
         root = e.find("root").find("root-step").text
-        part.add(score.ChordSymbol(root=root, kind=kind), position)
+        bass_e = e.find("bass/bass-step")
+        bass = None if bass_e is None else bass_e.text
+        part.add(score.ChordSymbol(root=root, kind=kind, bass=bass), position)
         text = None
     else:
         text = None
